@@ -36,6 +36,7 @@ def call_abstract(eng, st, f, pos, kw):
         g, c = xr_fresh("growth")
         s = VStr(fresh("status", Id))
         st2 = st.assume(c).setghost("measured", (lb, ub)).setghost("measured_values", (g, s))
+        st2 = st2.setghost("measured_state", st2)        # the whole state in force (functional flags, for _gene_deletion)
         return [("ok", st2, VTuple((g, s)))]
     return None
 
@@ -121,7 +122,8 @@ def _post(E):
 def _mod(E):
     return [("heap", "_lower_bound"), ("heap", "_upper_bound"), ("heap", "var_lb"), ("heap", "var_ub"), ("heap", "hm_len"),
             ("attr", E["model"], "_contexts", lambda st: alloc_list_hm(st)), ("ghost", "world", lambda st: fresh("world", C3.World)),
-            ("ghost", "measured", lambda st: None), ("ghost", "measured_values", lambda st: None)]
+            ("ghost", "measured", lambda st: None), ("ghost", "measured_values", lambda st: None),
+            ("ghost", "measured_state", lambda st: None)]
 
 
 def alloc_list_hm(st):
@@ -195,3 +197,88 @@ REG.add(Contract(MD, "_get_growth", "C06", [("model", _gg_model())], [
     Case("fba", requires=lambda E: z3.Not(_has_moma(E)), ensures=_gg_post_plain),
     Case("moma", requires=_has_moma, ensures=_gg_post_moma),
 ], modifies=lambda E: C4._slim_mod(Env({"self": E["model"]}, E.s0, eng=E.eng)), key="_get_growth"))
+
+
+# ---------------------------------------------------------------- _gene_deletion
+# Same shape as _reaction_deletion, with the gene-level effect proved in C07: at the moment growth and status are read exactly the
+# listed genes have become non-functional and a reaction has bounds (0,0) exactly when it belongs to a listed gene and its rule is
+# false with its non-functional genes absent; every other reaction has the bounds it had at entry.
+from . import c07_knockout as C7  # noqa
+
+GIDS = ("gene_ids", TList("id"))
+
+
+def _g_elem(E, j):
+    """the gene named by the j-th id"""
+    _, e = L(E.s0, E["gene_ids"])
+    dl = E.s0.objs[E["model"].oid]["attr:genes"]
+    dom, val = Dv(E.s0, dl)
+    _, ge = L(E.s0, dl)
+    return ge[val[e[j]]]
+
+
+def _g_known(E, t=None):
+    n, e = L(E.s0, E["gene_ids"])
+    dl = E.s0.objs[E["model"].oid]["attr:genes"]
+    dom, val = Dv(E.s0, dl)
+    j = qv("kj")
+    return FA([j], z3.Implies(z3.And(0 <= j, j < (n if t is None else t)), z3.Select(dom, e[j])), patterns=[e[j]])
+
+
+def _g_state(E, fun, lbh, ubh, st_rule, t):
+    """effect of knocking out the first t listed genes, on the given functional / bounds arrays (rule truth read in st_rule)"""
+    g, x, j, j2 = qv("sg", Ref), qv("sx", Ref), qv("sj"), qv("sj2")
+    fun0 = C7.H(E, E.s0, "_functional")
+    R0 = C7.H(E, E.s0, "_reaction")
+    in_upto = z3.Exists([j], z3.And(0 <= j, j < t, _g_elem(E, j) == g))
+    touched = z3.Exists([j2], z3.And(0 <= j2, j2 < t, R0[_g_elem(E, j2)][x]))
+    lb0, ub0 = C1.lbub(E, E.s0, x)
+    lb1, ub1 = VReal(lbh[0][x], lbh[1][x]), VReal(ubh[0][x], ubh[1][x])
+    zero = VReal(0, 0)
+    return z3.And(FA([g], fun[g] == z3.And(fun0[g], z3.Not(in_upto)), patterns=[fun[g]]),
+                  FA([x], z3.If(z3.And(touched, C7.rule_false(E, st_rule, x)), z3.And(xr_eq(lb1, zero), xr_eq(ub1, zero)),
+                                z3.And(xr_eq(lb1, lb0), xr_eq(ub1, ub0))), patterns=[lbh[0][x]]))
+
+
+def _g_inv(E, Lc):
+    st = Lc.st
+    return z3.And(_g_known(E, Lc.i), C7._all_valid(E, st),
+                  _g_state(E, C7.H(E, st, "_functional"), E.eng.heap_arr(st, "_lower_bound"), E.eng.heap_arr(st, "_upper_bound"), st, Lc.i))
+
+
+def _g_pre(E):
+    dl = E.s0.objs[E["model"].oid]["attr:genes"]
+    return z3.And(WF(E, E.s0, dl), C3._ctx_nonnull(Env({"obj": E["model"]}, E.s0, eng=E.eng)),
+                  C7._all_valid(E, E.s0), C7._rules_ok(E, E.s0), C7._xref_ok(E, E.s0))
+
+
+HOOKS_G = chain_hooks(HOOKS, C7.HOOKS)
+
+
+def _g_post(E):
+    n, _ = L(E.s0, E["gene_ids"])
+    ms = E.s1.ghost.get("measured_state")
+    mv = E.s1.ghost.get("measured_values")
+    res = E.res
+    if ms is None or mv is None or not (isinstance(res, VTuple) and len(res.items) == 3):
+        return z3.BoolVal(False)
+    n0, e0 = C3._ctxs(E.s0, E["model"])
+    n1, e1 = C3._ctxs(E.s1, E["model"])
+    j = qv("sj")
+    same_ids = z3.BoolVal(isinstance(res.items[0], VObj) and res.items[0].oid == E["gene_ids"].oid)
+    return z3.And(_g_state(E, C7.H(E, ms, "_functional"), E.eng.heap_arr(ms, "_lower_bound"), E.eng.heap_arr(ms, "_upper_bound"), ms, n),
+                  same_ids, xr_eq(res.items[1], mv[0]), res.items[2].t == mv[1].t,
+                  n1 == n0, FA([j], z3.Implies(z3.And(0 <= j, j < n0), e1[j] == e0[j])))
+
+
+def _g_mod(E):
+    return _mod(E) + [("heap", "_functional")]
+
+
+_g_ok = Case("all_ids_known", requires=lambda E: _g_known(E), ensures=_g_post)
+_g_bad = Case("unknown_id", requires=lambda E: z3.Not(_g_known(E)), raises="KeyError")
+_g_bad.modifies_on_raise = _g_mod
+REG.add(Contract(MD, "_gene_deletion", "C06", [("model", _model_t()), GIDS], [_g_ok, _g_bad], pre=_g_pre, modifies=_g_mod,
+                 key="_gene_deletion", props=["C06", "C14"],
+                 axioms=lambda E: C3.run_axioms() + C7.sem_axioms(E, E.s0) + C7.nf_axiom() + C7.sem_mono_axioms(),
+                 loops={0: LoopSpec(_g_inv, lambda E, Lc: C7.KO_MOD(E))}))
